@@ -688,6 +688,9 @@ OBLIGATIONS = [
 
 
 MUTANTS = [
+    dict(name="send blocks on message number minus slowest reader instead of queue length", file="strax/mailbox.py",
+         old="                return len(self._mailbox) < self.max_messages or self.killed",
+         new="                return (msg_number - min(self._subscribers_have_read, default=-1) - 1) < self.max_messages or self.killed"),
     dict(name="gc uses > instead of >= (keeps a read message)", file="strax/mailbox.py",
          old="min(self._subscribers_have_read) >= self._lowest_msg_number", new="min(self._subscribers_have_read) > self._lowest_msg_number"),
     dict(name="gc uses max instead of min (drops unread messages)", file="strax/mailbox.py",
